@@ -29,7 +29,7 @@ LEAN_TARGETS = ['PxProofs.C12']
 THEOREMS = [
     'Px.Reverse.C12_no_route_404', 'Px.Reverse.C12_404_packet',
     'Px.Reverse.C12_selection', 'Px.Reverse.C12_hits_sound',
-    'Px.Reverse.C12_target', 'Px.Reverse.C12_target_static', 'Px.Reverse.C12_default_ports',
+    'Px.Reverse.C12_target', 'Px.Reverse.C12_connect_host', 'Px.Reverse.C12_target_static', 'Px.Reverse.C12_default_ports',
     'Px.Reverse.C12_forwarded_request', 'Px.Reverse.C12_forwarded_path',
     'Px.Reverse.C12_host_rewrite', 'Px.Reverse.C12_headers_preserved', 'Px.Reverse.C12_parsed_names_distinct',
     'Px.Reverse.C12_default_disable',
@@ -39,7 +39,7 @@ THEOREMS = [
 ]
 RULE = ('route tables (1..3 plugins, 0..3 routes each: static with 1..3 upstream URLs http/https with/without '
         'port and path, dynamic returning Url or literal response or raising; edge URLs without scheme/host, bad '
-        'scheme, IPv6 literal, port 0) x request paths matching none/one/several routes x methods x header sets x '
+        'scheme, port 0; IPv6 literal hosts inside the quantifier) x request paths matching none/one/several routes x methods x header sets x '
         'bodies (none / Content-Length / chunked) x both --rewrite-host-header settings x scripted random.choice x '
         'upstream recv schedules; thorough adds every table of 2 plugins x <=2 routes over 8 route shapes x 3 paths '
         'x 2 rewrite settings; distinct by canonical JSON; non-trivial = inside the property quantifier')
@@ -76,9 +76,8 @@ _preload()
 
 
 # ----------------------------------------------------------------------------------------------
-# known finding hook: IPv6-literal upstream URLs are connected with their brackets
+# known finding hook (D26)
 # ----------------------------------------------------------------------------------------------
-IPV6_FAILURE = 'upstream-ipv6-literal-connected-with-brackets'
 # a dynamic route's Url with a non-UTF-8 byte (e.g. in its path) raises UnicodeDecodeError from
 # `str(self.choice)` (access-log string) and the request is dropped; the same URL in a static route works
 STR_FAILURE = 'dynamic-route-url-not-utf8-raises-in-log-string'
@@ -97,7 +96,6 @@ def _finding_id(failure):
     return None
 
 
-IPV6_ID = _finding_id(IPV6_FAILURE)
 STR_ID = _finding_id(STR_FAILURE)
 
 
@@ -522,8 +520,8 @@ def oracle(case):
     for u in cands:
         scheme, uh, uport, upath = url_parts(u)
         eport = uport if uport is not None else (80 if scheme == b'http' else 443)
-        bare = uh[1:-1] if uh.startswith(b'[') else uh
-        if port != eport or host not in (uh, bare):
+        bare = uh[1:-1] if uh.startswith(b'[') else uh      # an IPv6 literal is connected as the bare address
+        if port != eport or host != bare:
             continue
         why = 'forwarded-path-is-not-the-upstream-url-path'
         if target != (upath or b'/'):
@@ -536,8 +534,6 @@ def oracle(case):
         why = 'tls-wrap-not-per-scheme'
         if (scheme == b'https') != (len(o['wraps']) == 1):
             continue
-        if IPV6_ID and uh.startswith(b'[') and host == uh:
-            return IPV6_FAILURE
         ok_url = u
         break
     if ok_url is None:
@@ -581,8 +577,6 @@ def _has_undecodable_dynamic_url(case, path_text):
 
 
 def classify(case, sig):
-    if sig == IPV6_FAILURE and IPV6_ID:
-        return IPV6_ID
     if sig == STR_FAILURE and STR_ID:
         return STR_ID
     return None
@@ -591,9 +585,6 @@ def classify(case, sig):
 def finding_witnesses():
     rng = __import__('random').Random(7)
     out = {}
-    if IPV6_ID:
-        out[IPV6_ID] = _mk_case(rng, [[_static('/get$', [b'http://[::1]:8080/x'])]], [0], b'/get', rewrite=0,
-                                framing='none', up=[])
     if STR_ID:
         out[STR_ID] = _mk_case(rng, [[{'t': 'u', 're': '/get$', 'url': b'http://h.test/\xff'.hex()}]], [0], b'/get',
                                rewrite=0, framing='none', up=[])
@@ -607,7 +598,8 @@ PATTERNS = ['/get$', '/get', '/a/.*', r'/dyn/(\d+)$', '/', '/$', '/lit', r'/get/
             '.*', '/api/v[12]/', '/nomatch-ever', '/x\\?y=1$']
 PATHS = [b'/', b'/get', b'/get/12', b'/a/b.txt', b'/dyn/5', b'/lit', b'/x?y=1', b'/GET', b'/nope', b'/api/v1/u',
          b'/\xc3\xa9', b'/b', b'/geta', b'/a//b']
-UHOSTS = [b'up1.test', b'a.b-c.example', b'10.1.2.3', b'localhost', b'xn--bcher-kva.example', b'h']
+UHOSTS = [b'up1.test', b'a.b-c.example', b'10.1.2.3', b'localhost', b'xn--bcher-kva.example', b'h', b'[::1]',
+          b'[2001:db8::1]']
 UPORTS = [b'', b'', b'', b':80', b':8080', b':443', b':8443', b':1', b':65535']
 UPATHS = [b'', b'', b'/', b'/g', b'/a/b?x=1', b'/p%20q', b'/get?id=1', b'/deep/er/path/']
 EDGE_URLS = [b'//host.test/p', b'host.test:9000', b'host.test', b'ftp://h.test/', b'/just/path', b'',
@@ -737,6 +729,11 @@ def corpus():
         cs.append(_mk_case(rng, [[lit, _static('/', [b'http://first.test:81/f'])],
                                  [{'t': 'l', 're': '/l', 'resp': b'L2'.hex()}],
                                  [_static('/li', [b'https://last.test'])]], [0, 0, 0], b'/lit', rw, 'cl', up=[b'r'.hex()]))
+    # IPv6 literal upstreams: connected as the bare address (D8r, fixed by a37014e); wrap / Host keep the brackets
+    for rw in (0, 1):
+        cs.append(_mk_case(rng, [[_static('/get$', [b'http://[::1]:8080/x'])]], [0], b'/get', rw, 'none', up=[b'r'.hex()]))
+        cs.append(_mk_case(rng, [[_static('/get$', [b'https://[2001:db8::1]'])]], [0], b'/get', rw, 'cl', up=[]))
+        cs.append(_mk_case(rng, [[{'t': 'u', 're': '/get$', 'url': b'http://[::1]/'.hex()}]], [0], b'/get', rw, 'none', up=[]))
     # edge URLs (outside the quantifier; correspondence only)
     for u in EDGE_URLS:
         cs.append(_mk_case(rng, [[_static('/', [u])]], [0], b'/', 1, 'none', up=[]))
